@@ -468,6 +468,8 @@ pub struct Pay {
 	pub forgotten: Option<u64>,
 	/// first manager snapshot generation that can contain this payment
 	pub first_gen: u64,
+	/// manager snapshot generation current when the recipient called claim_funds
+	pub claim_gen: Option<u64>,
 	/// the sender restarted from a manager snapshot older than the payment and re-learned it
 	/// from its ChannelMonitors
 	pub rehydrated: bool,
@@ -1644,6 +1646,7 @@ impl World {
 			sender_balances_before: balances_before,
 			forgotten: None,
 			first_gen: self.nodes[from].disk.lock().unwrap().manager_generation + 1,
+			claim_gen: None,
 			rehydrated: false,
 		});
 		self.note(&format!("send pay {} {}->{} total {} accepted {}", idx, from, to, total, pending));
@@ -1676,6 +1679,7 @@ impl World {
 		};
 		let pre = self.pays[pay].preimage;
 		self.pays[pay].claim_called = Some(self.step);
+		self.pays[pay].claim_gen = Some(self.nodes[n].disk.lock().unwrap().manager_generation);
 		self.nodes[n].claimables.remove(&pay);
 		if let Err((m, l)) = catch(|| mgr.claim_funds(pre)) {
 			self.library_panic("Claim", m, l);
@@ -2028,6 +2032,9 @@ impl World {
 		self.step += 1;
 		self.clock += 1;
 		simcore_set_now(self.clock);
+		for node in self.nodes.iter() {
+			node.broadcaster.now_step.store(self.step, Ordering::Relaxed);
+		}
 		let did = match a {
 			// calls with side effects inside the library count as executed even when they
 			// produce nothing observable (replay must repeat them)
